@@ -286,7 +286,7 @@ def main(argv):
     enc = [r for r in results if r['verdict'] in ('ENCODING-ERROR',)]
     for r in results:
         if r['validation_mismatch']:
-            print('  TRANSLATION-VALIDATION mismatch in %s%s: %s' % (r['id'], r['case'], json.dumps(r['validation_mismatch'][0])[:600]))
+            print('  TRANSLATION-VALIDATION mismatch in %s%s: %s' % (r['id'], r['case'], json.dumps(dict(r['validation_mismatch'][0], inputs=len(r['validation_mismatch'][0]['inputs'])))[:1500]))
     if not a.no_evidence: write_evidence(prop, tier, seed, spec, obs, results, nviol, known_hit, time.time() - t0, extra_results)
     proved = sum(1 for r in results if r['verdict'] == 'PROVED'); und = sum(1 for r in results if r['verdict'] in ('UNDECIDED', 'VACUOUS'));
     print('%s %s: %d obligation-cases, %d proved, %d undecided, %d encoding-error, %d violated (%d unlisted violations), wall %.1fs' % (
